@@ -16,6 +16,10 @@ CONF_VARIANTS = [
     {'dh': ['19', '20'], 'dh_b': ['20', '19'], 'child_dh': ['20', '19'], 'child_dh_b': ['19', '20'], 'ike_lifetime': 100},
     # one-sided IKE_SA rekey (no collision) with an INVALID_KE_PAYLOAD retry
     {'dh': ['19', '20'], 'dh_b': ['20', '19'], 'ike_lifetime': 100, 'ike_lifetime_b': 5000, 'dpd': 1000},
+    # the largest keys the kernel structures take (64-octet integrity key), opposite CHILD_SA preference orders
+    {'child_integ': ['sha512', 'sha256'], 'child_integ_b': ['sha256', 'sha512'], 'child_encr': ['aes128', 'aes256'], 'child_encr_b': ['aes256', 'aes128'],
+     'integ': ['sha512'], 'prf': ['sha512']},
+    {'child_integ': ['sha512'], 'mode': 'tunnel', 'ip_proto': 'any'},
 ]
 
 
